@@ -20,6 +20,7 @@ import (
 	"errors"
 	"fmt"
 	"math"
+	"os"
 	"sync/atomic"
 	"time"
 
@@ -333,7 +334,7 @@ func judgeCommon(r *vrun.Run, sc scen, s snapshot, settledObserved bool, extra m
 			// documented: "blockingAction's context will be cancelled on exit"
 			r.Obs("ctx_done_on_return_checks", 1)
 			if s.CtxKnown && !s.CtxDone {
-				r.Violation(sig("action-context-not-done-on-return", "path", path),
+				r.Violation(sig("action-context-not-done-on-return", "path", path, "pre", ctxPre(s)),
 					fmt.Sprintf("%s returned %q but the context handed to the action is still alive", sc.Runner, errStr(s.Res)), wit())
 			}
 		case rStore:
@@ -341,7 +342,7 @@ func judgeCommon(r *vrun.Run, sc scen, s snapshot, settledObserved bool, extra m
 			if s.Res != nil {
 				r.Obs("ctx_done_on_return_checks", 1)
 				if s.CtxKnown && !s.CtxDone {
-					r.Violation(sig("action-context-not-done-on-return", "path", path),
+					r.Violation(sig("action-context-not-done-on-return", "path", path, "pre", ctxPre(s)),
 						fmt.Sprintf("%s returned %q but the context handed to the action is still alive", sc.Runner, errStr(s.Res)), wit())
 				}
 			} else {
@@ -359,6 +360,19 @@ func judgeCommon(r *vrun.Run, sc scen, s snapshot, settledObserved bool, extra m
 		}
 	}
 	return cls
+}
+
+// ctxPre names the state of the action when its context was found alive after the runner returned.
+func ctxPre(s snapshot) string {
+	switch {
+	case !s.ActionReturned:
+		return "action-still-running"
+	case s.Observed:
+		return "action-had-observed-a-signal"
+	case s.ActionRes == nil:
+		return "action-finished-on-its-own-with-nil"
+	}
+	return "action-finished-on-its-own-with-error"
 }
 
 func parentClass(sc scen) string {
@@ -390,11 +404,22 @@ func main() {
 
 	// real-time stress first: runners that do not return stay parked and are judged at the very end,
 	// once the generous wall-clock bound has elapsed (the bound only decides when to look, never the verdict)
-	rt := startRealtime(r)
-	runSweep(r)
-	runParallelise(r)
-	runStore(r)
-	rt.judgeStragglers(r)
+	only := os.Getenv("C12_ONLY") // development aid: run one part only (the minimum observation counts then fail the run)
+	part := func(name string, f func()) {
+		if only == "" || only == name {
+			t0 := time.Now()
+			f()
+			if os.Getenv("C12_TIMING") != "" {
+				fmt.Printf("part %s: %.1fs\n", name, time.Since(t0).Seconds())
+			}
+		}
+	}
+	rt := &realtime{}
+	part("realtime", func() { rt = startRealtime(r) })
+	part("sweep", func() { runSweep(r) })
+	part("parallelise", func() { runParallelise(r) })
+	part("store", func() { runStore(r) })
+	part("realtime", func() { rt.judgeStragglers(r) })
 
 	r.Require("sweep_cases", int64(r.Pick(20_000, 400_000)))
 	r.Require("sweep_equal_instant_cases", 30)
